@@ -5,7 +5,9 @@
    for all arguments and all junk; an ErrPayloadTooBig of the C03 model is SEND's None.  Hence the
    C03 round-trip theorems apply verbatim to every frame C07 talks about.
    Only statements, each closed by [exact]. *)
-From PV Require Import Base.Prelude Base.Slice Model.EncodeBase Model.Encode Proofs.EncodeGlue.
+From PV Require Import Base.Prelude Base.Slice Model.EncodeBase Model.Encode Model.EncodeDHCP Spec.EncodeRef Spec.EncodeRefDHCP
+     Proofs.EncodeDHCP Proofs.EncodeGlue Proofs.EncodeGlueDHCP.
+From PV Require Model.DHCP.
 From PV Require Model.SendBase Model.Send Model.SendUdp Model.SendNdp.
 Open Scope N_scope.
 
@@ -127,3 +129,59 @@ Theorem C03_glue_na : forall ro so ov (target : SendBase.addr),
             arr r = Send.na_marshal ro so ov target.
 Proof. exact glue_na. Qed.
 Print Assumptions C03_glue_na.
+
+(* ---------------------------------------------------------------- *)
+(* C03/C12 glue.  The DHCP server model (coq/Model/DHCP.v, owned by DHCP) describes a reply as a
+   record with an ordered option list.  (1) that list is the C03 emission list for the same map and
+   requested order, the unordered tail iterated in code order; (2) it depends only on the option MAP;
+   (3) EncodeDHCP4 (C03 model) applied to the reply's map, order and yiaddr on the request buffer
+   yields bytes whose RFC 2131/2132 reference decoding gives back the record: options in this order
+   (mask before router), yiaddr, and the xid / chaddr the request buffer held - so C12's clauses
+   about options / xid / chaddr hold of the bytes on the wire. *)
+Theorem C03_dhcp_append_options_is_emission : forall (o : opts) order, nodup o ->
+  DHCP.append_options o order = emission o order (sorted_perm o order).
+Proof. exact append_options_is_emission. Qed.
+Print Assumptions C03_dhcp_append_options_is_emission.
+
+Theorem C03_dhcp_append_options_ext : forall (l1 l2 : opts) order, nodup l1 -> nodup l2 ->
+  (forall k, lookup_opt k l1 = lookup_opt k l2) ->
+  DHCP.append_options l1 order = DHCP.append_options l2 order.
+Proof. exact append_options_ext. Qed.
+Print Assumptions C03_dhcp_append_options_ext.
+
+Theorem C03_dhcp_reply_bytes : forall b (options : opts) order tcode yi,
+  (300 <= cap b)%nat ->
+  let o' := set_opt 53 [tcode] options in
+  nodup options -> opts_ok o' -> (241 + osize o' <= cap b)%nat ->
+  let ropts := DHCP.append_options o' order in
+  exists p rec,
+    encode_dhcp4 b 2 tcode None [] (DHCP.ipb yi) None false options order (sorted_perm o' order) = Ok p /\
+    (300 <= len p)%nat /\
+    ref_dhcp (view p) = Some rec /\
+    rd_options rec = ropts /\ mask_before_router ropts = true /\
+    rd_op rec = 2 /\ rd_htype rec = 1 /\ rd_hlen rec = 6 /\ rd_flags rec = 0 /\
+    rd_yiaddr rec = DHCP.ipb yi /\
+    rd_xid rec = sub (arr b) 4 4 /\
+    rd_chaddr rec = sub (arr b) 28 6 ++ repeat 0 10 /\
+    rd_ciaddr rec = sub (arr b) 12 4 /\ rd_siaddr rec = [0;0;0;0] /\ rd_giaddr rec = [0;0;0;0] /\
+    (forall k, lookup_opt k (dhcp_parse_options p) = lookup_opt k o').
+Proof. exact dhcp_reply_bytes. Qed.
+Print Assumptions C03_dhcp_reply_bytes.
+
+(* the OFFER / ACK records DHCP.mk_reply builds *)
+Theorem C03_dhcp_offer_ack_bytes : forall b c (t : DHCP.rtype) m yi net2,
+  t <> DHCP.RNak ->
+  let tcode := match t with DHCP.ROffer => 2 | DHCP.RAck => 5 | DHCP.RNak => 6 end in
+  let r := DHCP.mk_reply c t m yi net2 in
+  let o' := set_opt 53 [tcode] (reply_map c net2) in
+  (300 <= cap b)%nat -> (241 + osize o' <= cap b)%nat ->
+  exists p rec,
+    encode_dhcp4 b 2 tcode None [] (DHCP.ipb (DHCP.r_yi r)) None false (reply_map c net2) (DHCP.m_prl m)
+                 (sorted_perm o' (DHCP.m_prl m)) = Ok p /\
+    (300 <= len p)%nat /\
+    ref_dhcp (view p) = Some rec /\
+    rd_options rec = DHCP.r_opts r /\ mask_before_router (DHCP.r_opts r) = true /\
+    rd_op rec = 2 /\ rd_yiaddr rec = DHCP.ipb (DHCP.r_yi r) /\
+    rd_xid rec = sub (arr b) 4 4 /\ rd_chaddr rec = sub (arr b) 28 6 ++ repeat 0 10.
+Proof. exact dhcp_offer_ack_bytes. Qed.
+Print Assumptions C03_dhcp_offer_ack_bytes.
